@@ -19,6 +19,9 @@ RULE = ("Reaction systems are built by construction (vlib/gen_c03.py): 1-8 react
         "objects or Species objects with phase_idx 0-3 (directly or from the key's suffix '(s)' '(l)' '(g)').  The "
         "expected rates are computed from the JSON description with Fractions (or sympy arithmetic for symbols): "
         "net_i = prod - reac + inact_prod - inact_reac, q = k*prod(c^nu_active), dc_i/dt = sum net_i*q (+ F*(c_feed-c)). "
+        "'history' keeps one system object through evaluations and in-place changes (re-sorting, +=); every "
+        "evaluation uses the substance order the system reports at that moment; all history cases count as "
+        "non-trivial.  "
         "Non-trivial = >= 2 reactions touching one species, or a species on both sides of a reaction, or an inactive "
         "coefficient; distinct by case digest.")
 ASSUMPTIONS = ["float results are compared to the exact rational value of the same float inputs with tolerance "
@@ -398,6 +401,33 @@ MATRICES = (("net_stoichs", G.net),
             ("active_prod_stoichs", lambda r, k: r["prod"].get(k, 0)))
 
 
+def _variables_argument(case, ctx, alt_key="alt"):
+    """The optional third argument of law_of_mass_action_rates as a tuple of 0 or 1 elements.  'none' = omitted,
+    'empty' = {}, 'unrelated' = keys that are neither substances nor parameters, 'state' = additionally every substance
+    key, holding *other* values than the concentration vector (the concentrations that count are the vector's).
+    Named constants always travel in it.  Omitting the argument when a parameter is a rate expression (MassAction)
+    makes the unchanged code raise AttributeError (None.items()) before anything is reported: not generated, {} is
+    passed instead (label vars=none->empty)."""
+    rxns = case["sys"]["rxns"]
+    mode = case.get("vmode", "empty")
+    names = {G.k_name(i): G.native(r["k"]) for i, r in enumerate(rxns) if r["ktype"] == "named"}
+    if mode == "none":
+        if not names and not any(r["ktype"] == "massaction" for r in rxns):
+            ctx.label("vars=none")
+            return ()
+        ctx.label("vars=none->empty")
+        mode = "empty"
+    else:
+        ctx.label("vars=" + mode)
+    v = {}
+    if mode in ("unrelated", "state"):
+        v.update({"temperature": 298, "feedratio": 2})
+    if mode == "state":
+        v.update({s: G.native(case[alt_key][s]) for s in case["sys"]["subs"]})
+    v.update(names)
+    return (v,)
+
+
 def check_array(case, ctx):
     _labels(case, ctx)
     cls, conc, ks = _refs(case)
@@ -434,16 +464,17 @@ def check_array(case, ctx):
                 return
     # -- rates in array form ------------------------------------------------------
     if any(r["ktype"] == "named" for r in rxns):
-        # law_of_mass_action_rates multiplies by rxn.param itself: a parameter *name* is outside its domain
-        ctx.label("array_rates_skipped:named_param")
-        return
+        # law_of_mass_action_rates multiplies by rxn.param itself, so a bare parameter *name* is outside its domain;
+        # the name wrapped as MassAction.fk(name) (what Reaction.rate_expr() makes of it) is looked up in `variables`
+        ctx.label("named_as_MassAction.fk")
+        rsys = _build_system(case, [G.build_reaction(r, i, named_fk=True) for i, r in enumerate(rxns)])
     from chempy.kinetics.ode import dCdt_list, law_of_mass_action_rates
     conc_list = [G.native(case["conc"][s]) for s in subs]
     if (cls == "float" or isinstance(cls, tuple)) and case["perm"][:1] != [0]:
         import numpy as np
         conc_list = np.array(conc_list, dtype=float)       # class 'ndarray': shape (ns, m), one row per substance
         ctx.label("conc=ndarray" if cls == "float" else "conc=2d_ndarray")
-    extra = ({},) if any(r["ktype"] == "massaction" for r in rxns) else ()
+    extra = _variables_argument(case, ctx)
     unchanged = _Unchanged(ctx, {"conc": conc_list} if not isinstance(conc_list, list) else dict(enumerate(conc_list)))
     rates = list(law_of_mass_action_rates(conc_list, rsys, *extra))
     if not unchanged.check("law_of_mass_action_rates"):
@@ -470,6 +501,91 @@ def check_array(case, ctx):
             return
 
 
+# ---------------------------------------------------------------------------
+# sub-check 'history': one ReactionSystem object evaluated, changed in place, evaluated again
+# ---------------------------------------------------------------------------
+
+def check_history(case, ctx):
+    from chempy.kinetics.ode import dCdt_list, law_of_mass_action_rates
+    _labels(case, ctx)
+    cls_name = case["cls"]
+    cls = ("ndarray", case["m"]) if cls_name == "ndarray" else cls_name
+    subs = list(case["sys"]["subs"])
+    rxns = list(case["sys"]["rxns"])
+    objs = [G.build_reaction(r, i, named_fk=True) for i, r in enumerate(rxns)]
+    rsys = _build_system(case, objs)
+    n_eval = 0
+    for step in case["steps"]:
+        op = step["op"]
+        ctx.label("op=" + op)
+        if op == "sort":
+            rsys.sort_substances_inplace()
+            subs = sorted(subs)
+        elif op == "reorder":
+            order = list(step["order"])
+            rsys.sort_substances_inplace(key=lambda kv: order.index(kv[0]))
+            subs = order
+        elif op == "add_rxns":
+            new = [G.build_reaction(r, len(rxns) + i, named_fk=True) for i, r in enumerate(step["rxns"])]
+            rsys += new
+            rxns = rxns + list(step["rxns"])
+        elif op == "add_system":
+            new = [G.build_reaction(r, len(rxns) + i, named_fk=True) for i, r in enumerate(step["rxns"])]
+            other = _build_system(dict(case, sys={"subs": list(step["subs"]), "rxns": list(step["rxns"])}), new)
+            rsys += other
+            rxns = rxns + list(step["rxns"])
+            subs = subs + [k for k in step["subs"] if k not in subs]
+        if op != "eval":
+            continue
+        # -- evaluation against the model (current substance order, all reactions so far) ---------------------
+        which = "conc" if n_eval % 2 == 0 else "alt"
+        other_vals = "alt" if which == "conc" else "conc"
+        n_eval += 1
+        # the order that counts is the system's current one, whatever the change made of it; the model only says
+        # which substances and reactions there are
+        got_order = list(rsys.substances.keys())
+        if sorted(got_order) != sorted(subs) or rsys.nr != len(rxns):
+            ctx.fail("history:substances_or_reactions_lost", got=got_order, expected=sorted(subs), nr=rsys.nr,
+                     expected_nr=len(rxns), after=n_eval)
+            return
+        if got_order != subs:
+            ctx.label("order_differs_from_model")
+            subs = got_order
+        sysd = {"subs": subs, "rxns": rxns}
+        conc = {k: G.refval(case[which][k], cls_name) for k in subs}
+        ks = [G.refval(r["k"], cls_name) for r in rxns]
+        exp, scale = G.ref_system_rates(sysd, ks, conc)
+        variables = {k: G.native(case[which][k]) for k in subs}
+        names = {G.k_name(i): G.native(r["k"]) for i, r in enumerate(rxns) if r["ktype"] == "named"}
+        variables.update(names)
+        got = rsys.rates(dict(variables))
+        if not cmp_dict(ctx, cls, got, exp, scale, "history:rates", subs, missing_is_zero=True, evaluation=n_eval,
+                        substances=subs):
+            return
+        conc_list = [G.native(case[which][k]) for k in subs]
+        extra = _variables_argument(dict(case, sys=sysd), ctx, alt_key=other_vals)
+        rates = list(law_of_mass_action_rates(conc_list, rsys, *extra))
+        if len(rates) != len(rxns):
+            ctx.fail("history:law_of_mass_action_rates:length", got=len(rates), expected=len(rxns))
+            return
+        for ri, r in enumerate(rxns):
+            q = G.ref_rate(r, ks[ri], conc)
+            if not same(cls, rates[ri], q, None if cls == "sym" else abs(q)):
+                ctx.fail("history:law_of_mass_action_rates:value", rxn=r, index=ri, evaluation=n_eval, substances=subs,
+                         got=short(repr(rates[ri]), 200), expected=short(str(q), 200))
+                return
+        f = dCdt_list(rsys, rates)
+        if len(f) != len(subs):
+            ctx.fail("history:dCdt_list:length", got=len(f), expected=len(subs))
+            return
+        for si, k in enumerate(subs):
+            if not same(cls, f[si], exp[k], None if scale is None else scale[k]):
+                ctx.fail("history:dCdt_list:value", key=k, index=si, evaluation=n_eval, substances=subs,
+                         got=short(repr(f[si]), 200), expected=short(str(exp[k]), 200))
+                return
+    ctx.nontrivial(True)
+
+
 SUBCHECKS = [
     SubCheck("reaction", check_reaction, strategy=G.rate_cases(), quick=700, thorough=50000,
              rule="Reaction.rate(vars) per reaction: default keys, all substance keys (bystanders 0), and unchanged when "
@@ -486,6 +602,13 @@ SUBCHECKS = [
              tolerances={"float_rel_of_sum_abs_terms": 1e-12}),
     SubCheck("array", check_array, strategy=G.rate_cases(), quick=700, thorough=50000,
              rule="five stoichiometry matrices (default and explicit key lists), get_coeff_mtx, "
-                  "law_of_mass_action_rates and dCdt_list against the description",
+                  "law_of_mass_action_rates(c, rsys[, variables]) and dCdt_list against the description; `variables` "
+                  "omitted / {} / unrelated keys / a state dict with other concentrations; named constants as "
+                  "MassAction.fk(name)",
+             tolerances={"float_rel_of_sum_abs_terms": 1e-12}),
+    SubCheck("history", check_history, strategy=G.history_cases(), quick=600, thorough=30000,
+             rule="one system object: evaluate (rates() and the array form), then 1-3 rounds of in-place changes "
+                  "(sort_substances_inplace() with the default or a custom key, += reactions, += another system with "
+                  "new substances) each followed by an evaluation in the *current* substance order",
              tolerances={"float_rel_of_sum_abs_terms": 1e-12}),
 ]
